@@ -11,148 +11,10 @@
    is present.  Payload checksum = CRC-16/ARC over the payload octets.
    Transports: 0 serial (SLIP, classic; header CRC always, payload CRC iff payload), 1 TCP (varint length
    prefix, no checksums).                                                                            *)
-EXTENDS Emit, CrcOps
+EXTENDS RegpOps
 
 VARIABLES seq, ev      \* the requesting session's sequence number; ghost event
 vars == <<seq>>
-
-(* ------------------------------------------------------------------ constants of the protocol *)
-T_RREQ == 0
-T_RRESP == 1
-T_WREQ == 2
-T_WRESP == 3
-T_META == 15
-O_WS16 == 1
-O_HDCRC == 2
-O_PLCRC == 4
-ACK == 0
-EWORDSIZE == 1
-EPAYLOADCRC == 2
-EPAYLOADSIZE == 3
-ERXOVERFLOW == 4
-ETXOVERFLOW == 5
-EBUSY == 6
-EUNMAPPED == 7
-EACCESS == 8
-ERANGE == 9
-EINVALID == 10
-EIO == 11
-M_HEADERENC == 1
-M_HEADERCRC == 2
-WithAddress(code) == code \in {EUNMAPPED, EACCESS, ERANGE, EINVALID}
-WithSize(code) == code \in {ERXOVERFLOW, ETXOVERFLOW}
-
-Has(opts, bit) == (opts \div bit) % 2 = 1
-W2(w) == <<w \div 256, w % 256>>                       \* 16-bit word, big endian
-W4(p) == W2(p[1]) \o W2(p[2])                          \* <<hi, lo>> as four octets, big endian
-Word(o, i) == o[i] * 256 + o[i + 1]                    \* octets i, i+1 (1-based) as a word
-
-(* ------------------------------------------------------------------ emitting: doc section 2 and 5 *)
-Opts(tr, ws16, hasPayload) == (IF ws16 THEN O_WS16 ELSE 0) + (IF tr = 0 THEN O_HDCRC ELSE 0)
-                              + (IF tr = 0 /\ hasPayload THEN O_PLCRC ELSE 0)
-Head12(type, opts, meta, sq, addr, bs) == <<meta * 16 + opts, type * 16 + 0>> \o W2(sq) \o W4(addr) \o W4(bs)
-FrameOctets(type, opts, meta, sq, addr, bs, payload) ==
-    LET h == Head12(type, opts, meta, sq, addr, bs)
-        plc == W2(Buffer(0, payload))
-        hdc == W2(Buffer(0, h \o (IF Has(opts, O_PLCRC) THEN plc ELSE <<>>)))
-    IN h \o (IF Has(opts, O_HDCRC) THEN hdc ELSE <<>>) \o (IF Has(opts, O_PLCRC) THEN plc ELSE <<>>) \o payload
-
-SlipEsc(o) == IF o = 192 THEN <<219, 220>> ELSE IF o = 219 THEN <<219, 221>> ELSE <<o>>
-RECURSIVE SlipBody(_)
-SlipBody(s) == IF s = <<>> THEN <<>> ELSE SlipEsc(Head(s)) \o SlipBody(Tail(s))
-RECURSIVE VarintOf(_)
-VarintOf(n) == IF n < 128 THEN <<n>> ELSE <<128 + (n % 128)>> \o VarintOf(n \div 128)
-Wire(tr, frame) == IF tr = 0 THEN SlipBody(frame) \o <<192>> ELSE VarintOf(Len(frame)) \o frame
-
-(* requests: word size 8 or 16; block size n (words); payload octets for writes *)
-Request(tr, isWrite, ws16, sq, addr, n, payload) ==
-    FrameOctets(IF isWrite THEN T_WREQ ELSE T_RREQ, Opts(tr, ws16, isWrite /\ payload # <<>>), 0, sq, addr, <<0, n>>, payload)
-(* responses mirror sequence and address; type = request type + 1 *)
-RespType(reqType) == IF reqType = T_RREQ THEN T_RRESP ELSE IF reqType = T_WREQ THEN T_WRESP ELSE T_META
-(* acknowledgement: word size of the attached memory; block size = words delivered *)
-AckResponse(tr, reqType, mem16, sq, addr, n, payload) ==
-    FrameOctets(RespType(reqType), Opts(tr, mem16, payload # <<>>), ACK, sq, addr, <<0, n>>, payload)
-(* error responses: octet semantics; a 32-bit big-endian payload where the document prescribes one *)
-ErrResponse(tr, reqType, code, sq, addr, val) ==
-    IF WithAddress(code) \/ WithSize(code)
-    THEN FrameOctets(RespType(reqType), Opts(tr, FALSE, TRUE), code, sq, addr, <<0, 4>>, W4(val))
-    ELSE FrameOctets(RespType(reqType), Opts(tr, FALSE, FALSE), code, sq, addr, <<0, 0>>, <<>>)
-MetaMessage(tr, meta) == FrameOctets(T_META, Opts(tr, FALSE, FALSE), meta, 0, <<0, 0>>, <<0, 0>>, <<>>)
-
-(* ------------------------------------------------------------------ receiving: an independent reading *)
-Fields(o) == [meta |-> o[1] \div 16, opts |-> o[1] % 16, type |-> o[2] \div 16, version |-> o[2] % 16,
-              sq |-> Word(o, 3), addr |-> <<Word(o, 5), Word(o, 7)>>, bs |-> <<Word(o, 9), Word(o, 11)>>]
-HeaderLen(opts) == 12 + (IF Has(opts, O_HDCRC) THEN 2 ELSE 0) + (IF Has(opts, O_PLCRC) THEN 2 ELSE 0)
-EncodingOK(o) ==
-    /\ Len(o) >= 12
-    /\ LET f == Fields(o)
-       IN /\ f.version = 0
-          /\ f.type \in {T_RREQ, T_RRESP, T_WREQ, T_WRESP, T_META}
-          /\ ~Has(f.opts, 8)
-          /\ CASE f.type \in {T_RREQ, T_WREQ} -> f.meta = 0
-               [] f.type \in {T_RRESP, T_WRESP} -> f.meta <= EIO
-               [] OTHER -> f.meta \in {M_HEADERENC, M_HEADERCRC}
-          /\ Len(o) >= HeaderLen(f.opts)
-HdCrcOK(o) == LET f == Fields(o)
-              IN ~Has(f.opts, O_HDCRC) \/
-                 Word(o, 13) = Buffer(0, Take(o, 12) \o (IF Has(f.opts, O_PLCRC) THEN SubSeq(o, 15, 16) ELSE <<>>))
-PayloadOf(o) == Drop(o, HeaderLen(Fields(o).opts))
-WordSize(opts) == IF Has(opts, O_WS16) THEN 2 ELSE 1
-(* block size x word size = payload octets, except read requests and meta messages which carry none *)
-PlSizeOK(o) == LET f == Fields(o)
-                   pl == PayloadOf(o)
-               IN IF f.type \in {T_RREQ, T_META} THEN pl = <<>>
-                  ELSE f.bs[1] = 0 /\ f.bs[2] * WordSize(f.opts) = Len(pl)
-PlCrcOK(o) == LET f == Fields(o)
-              IN ~Has(f.opts, O_PLCRC) \/ Word(o, IF Has(f.opts, O_HDCRC) THEN 15 ELSE 13) = Buffer(0, PayloadOf(o))
-(* verdict classes: 0 ok, 74 bad header encoding, 84 bad header checksum, 14 implausible payload size,
-   71 bad payload checksum.  Where several faults apply every applicable class is allowed (R4). *)
-C_OK == 0
-C_ENC == 74
-C_HDCRC == 84
-C_PLSIZE == 14
-C_PLCRC == 71
-Classes(o) ==
-    IF Len(o) < 12 THEN {C_ENC}
-    ELSE IF ~EncodingOK(o) THEN {C_ENC} \cup (IF Len(o) >= HeaderLen(Fields(o).opts) /\ ~HdCrcOK(o) THEN {C_HDCRC} ELSE {})
-    ELSE IF ~HdCrcOK(o) THEN {C_HDCRC}
-    ELSE LET sz == IF PlSizeOK(o) THEN {} ELSE {C_PLSIZE}
-             \* a declared payload checksum over an *empty* payload: the document says the bit shall be unset and the
-             \* field zero; whether a non-zero field is then a checksum failure is left open (both readings allowed)
-             crcs == IF PlCrcOK(o) THEN {{}} ELSE IF PayloadOf(o) = <<>> THEN {{}, {C_PLCRC}} ELSE {{C_PLCRC}}
-         IN UNION {IF sz \cup c = {} THEN {C_OK} ELSE sz \cup c : c \in crcs}
-IsRequest(o) == Fields(o).type \in {T_RREQ, T_WREQ}
-
-(* ------------------------------------------------------------------ processing: doc section 3.1 *)
-(* cfg = [tr, mem16, cap]    cap = block size of the allocator minus sizeof(RPFrame)
-   The backend is the environment: for an executed request it returns a verdict code, an address, and for
-   acknowledged reads the words it delivered (as octets).
-   Result of receiving+processing one unframed octet string o that fits the receive block:
-     [cls, backend, replies]   backend: <<>> or <<kind, addr, n, payload>>, kind 0 read 1 write
-                               replies: sequence of frames (octet strings) put on the wire              *)
-ReplyFor(cfg, o, cls, verdict, vaddr, data) ==
-    LET f == Fields(o)
-        execd == cls = C_OK /\ IsRequest(o) /\ (Has(f.opts, O_WS16) <=> cfg.mem16)
-    IN IF cls = C_ENC THEN <<MetaMessage(cfg.tr, M_HEADERENC)>>
-       ELSE IF cls = C_HDCRC THEN <<MetaMessage(cfg.tr, M_HEADERCRC)>>
-       ELSE IF ~IsRequest(o) THEN <<>>
-       ELSE IF cls = C_PLCRC THEN <<ErrResponse(cfg.tr, f.type, EPAYLOADCRC, f.sq, f.addr, <<0, 0>>)>>
-       ELSE IF cls = C_PLSIZE THEN <<ErrResponse(cfg.tr, f.type, EPAYLOADSIZE, f.sq, f.addr, <<0, 0>>)>>
-       ELSE IF ~execd THEN <<ErrResponse(cfg.tr, f.type, EWORDSIZE, f.sq, f.addr, <<0, 0>>)>>
-       ELSE IF verdict = ACK THEN <<AckResponse(cfg.tr, f.type, cfg.mem16, f.sq, f.addr,
-                                                IF f.type = T_RREQ THEN f.bs[2] ELSE 0,
-                                                IF f.type = T_RREQ THEN data ELSE <<>>)>>
-       ELSE <<ErrResponse(cfg.tr, f.type, verdict, f.sq, f.addr,
-                          IF WithSize(verdict) THEN <<cfg.cap \div 65536, cfg.cap % 65536>> ELSE vaddr)>>
-BackendCall(cfg, o, cls) ==
-    LET f == Fields(o)
-    IN IF cls = C_OK /\ IsRequest(o) /\ (Has(f.opts, O_WS16) <=> cfg.mem16) /\ f.bs[1] = 0
-       THEN <<IF f.type = T_RREQ THEN 0 ELSE 1>> \o f.addr \o <<f.bs[2]>> \o PayloadOf(o)
-       ELSE <<>>
-(* read of n words: must be refused with transmit-overflow when it cannot fit behind the request's header in
-   the block; must be served when it fits with a full header's room to spare; in between either (R4) *)
-ReadFits(cfg, o) == Fields(o).bs[1] = 0 /\ Fields(o).bs[2] * WordSize(Fields(o).opts) <= cfg.cap - 16
-ReadTooBig(cfg, o) == Fields(o).bs[1] > 0 \/ Fields(o).bs[2] * WordSize(Fields(o).opts) > cfg.cap - 12
 
 Init == seq = 0 /\ ev = Boot
 Next == UNCHANGED <<seq, ev>>
